@@ -13,6 +13,7 @@ from spverif.ref.crc import crc16
 from . import _cfdp as C
 from . import c08
 
+SCRIBBLE = True
 ID = "C09"
 LEVEL = "exploration"
 SHARDS = {"quick": 1, "thorough": 16}
@@ -326,6 +327,8 @@ KINDS = {"unit": k_unit, "back_to_back": k_back_to_back, "pdu": k_pdu}
 
 
 def run(ctx):
+    from spverif.san import scribble
+    scribble.install()
     r = ctx.rng
     names = list(reg())
     i = 0
@@ -356,6 +359,7 @@ def run(ctx):
 
 
 def conclude(ctx):
+    ctx.require(ctx.extra.get("hostile_caller_scribbled_pack_results", 0) > 0, "hostile-caller sanitizer scribbled no pack() result")
     for name in reg():
         for sc in SUFFIX_CLASSES:
             ctx.require(ctx.classes.get(f"{name}/{sc}", 0) > 0, f"cell {name}/{sc} empty")
